@@ -256,6 +256,25 @@ struct Model {
         }
         return full;
     }
+    // the same for a list of parts, each rotated with the blocks IT names (used for the parts returned by the public transpose() accessors);
+    // a part whose matrix does not fit the blocks it names yields a sentinel entry
+    CMat rotate_back_parts(const std::vector<const FieldOperatorPart*>& ps, bool& fits) {
+        unsigned long NS = 1ul << M;
+        CMat full = CMat::Zero(NS, NS);
+        for (const FieldOperatorPart* p : ps) {
+            int to = p->getLeftIndex(), from = p->getRightIndex();
+            const MatrixType& Uto = H->getPart(BlockNumber(to)).getMatrix();
+            const MatrixType& Ufrom = H->getPart(BlockNumber(from)).getMatrix();
+            MatrixType dense = MatrixType(p->elementsRowMajor);
+            if (dense.rows() != Uto.cols() || dense.cols() != Ufrom.cols()) { fits = false; continue; }
+            CMat loc = Uto.template cast<ComplexType>() * dense.template cast<ComplexType>() * Ufrom.template cast<ComplexType>().adjoint();
+            const std::vector<FockState>& ts = S->getFockStates(BlockNumber(to));
+            const std::vector<FockState>& fs = S->getFockStates(BlockNumber(from));
+            for (size_t r = 0; r < ts.size(); ++r)
+                for (size_t c = 0; c < fs.size(); ++c) full(ts[r].to_ulong(), fs[c].to_ulong()) += loc(r, c);
+        }
+        return full;
+    }
     static json mat_entries(const CMat& A, double thr = 1e-12) {
         json e = json::array();
         for (int r = 0; r < A.rows(); ++r)
@@ -353,6 +372,17 @@ struct Model {
                 worst = std::max(worst, (MatrixType(p->getRowMajorValue()) - MatrixType(p->getColMajorValue())).cwiseAbs().sum());
             }
             out.push_back(json::array({"adjoint", json::array({json::array({0, i})}), json::array(), qsat(std::round(worst / delta))}));
+            // the public part-level accessors transpose(): the parts of c_i transposed are parts of c^+_i (between the swapped blocks), and vice versa
+            {
+                std::vector<const FieldOperatorPart*> tc, tcx;
+                for (FieldOperatorPart* p : c.getParts()) tc.push_back(&static_cast<AnnihilationOperatorPart*>(p)->transpose());
+                for (FieldOperatorPart* p : cx.getParts()) tcx.push_back(&static_cast<CreationOperatorPart*>(p)->transpose());
+                bool fits = true;
+                json e1 = mat_entries_q(rotate_back_parts(tc, fits), delta), e2 = mat_entries_q(rotate_back_parts(tcx, fits), delta);
+                if (!fits) { e1.push_back(json::array({0, 0, 999999999, 999999999})); e2.push_back(json::array({0, 0, 999999999, 999999999})); }
+                out.push_back(json::array({"transposed", json::array({json::array({1, i})}), e1, 0}));
+                out.push_back(json::array({"transposed", json::array({json::array({0, i})}), e2, 0}));
+            }
         }
         for (int i = 0; i < M; ++i) for (int j = 0; j < M; ++j) {
             QuadraticOperator A(*IC, *S, *H, i, j); A.prepare(); A.compute();
